@@ -271,6 +271,9 @@ def realise_positions(rng, matrix, site_frac, radii, inner_fraction, states, inn
     return pos, via_image
 
 
+LABEL_VOCABS = [['A', 'B', 'C'], ['Li1', 'Li10', 'Li100'], ['48h', '48h2', '4'], ['Li', 'i', 'L'], ['B', 'AB', 'ABA'], ['a', 'A', 'a ']]
+
+
 def make_site_system(
     rng,
     *,
@@ -300,7 +303,9 @@ def make_site_system(
     if inner_fraction is None:
         inner_fraction = float(rng.choice([1.0, 1.0, 0.9, 0.5, 0.3]))
     radius_mode = radius_mode or str(rng.choice(['float', 'dict']))
-    label_names = ['A', 'B', 'C'][:n_labels]
+    # label vocabularies include names that are prefixes / suffixes / substrings of each other
+    vocab = LABEL_VOCABS[int(rng.integers(len(LABEL_VOCABS)))]
+    label_names = [vocab[i] for i in rng.permutation(3)][:n_labels]
     # non-contiguous label assignment, every label used at least once
     labels = [label_names[i % n_labels] for i in range(n_sites)]
     labels = list(rng.permutation(labels))
